@@ -49,6 +49,13 @@ func c16Struct(r *h.Rand, sc *gen.Schema, depth int, n *int) *gen.StructT {
 			f.T = &gen.Type{T: tref.MAP, Key: &gen.Type{T: tref.STRING}, Elem: &gen.Type{T: tref.I64}}
 		case tref.STRUCT:
 			f.T = &gen.Type{T: tref.STRUCT, S: c16Struct(r, sc, depth-1, n)}
+			// the same rules hold for structs inside containers
+			switch r.Intn(5) {
+			case 0:
+				f.T = &gen.Type{T: tref.LIST, Elem: f.T}
+			case 1:
+				f.T = &gen.Type{T: tref.MAP, Key: &gen.Type{T: tref.STRING}, Elem: f.T}
+			}
 		default:
 			f.T = &gen.Type{T: k}
 			if r.Chance(50) {
@@ -99,11 +106,21 @@ func c16ExpectWith(v *tref.Val, t *gen.Type, o c16Opts, optDefaultWrites bool) (
 		}
 		present[f.ID] = true
 		ev := f.V
-		if f.V.T == tref.STRUCT {
+		switch {
+		case f.V.T == tref.STRUCT:
 			var cls string
 			ev, cls = c16ExpectWith(f.V, fd.T, o, optDefaultWrites)
 			if cls != "" {
 				return nil, cls
+			}
+		case (f.V.T == tref.LIST || f.V.T == tref.MAP) && fd.T.Elem.T == tref.STRUCT:
+			ev = &tref.Val{T: f.V.T, ET: f.V.ET, KT: f.V.KT, K: f.V.K}
+			for _, e := range f.V.L {
+				x, cls := c16ExpectWith(e, fd.T.Elem, o, optDefaultWrites)
+				if cls != "" {
+					return nil, cls
+				}
+				ev.L = append(ev.L, x)
 			}
 		}
 		out.Fs = append(out.Fs, tref.Field{ID: f.ID, V: ev})
@@ -147,9 +164,22 @@ func c16Doc(cs *h.Case, v *tref.Val, t *gen.Type, nulls bool, unknown *bool, dep
 		fd := t.S.Field(f.ID)
 		present[f.ID] = true
 		var val string
-		if f.V.T == tref.STRUCT {
+		switch {
+		case f.V.T == tref.STRUCT:
 			val = c16Doc(cs, f.V, fd.T, nulls, unknown, depth+1)
-		} else {
+		case f.V.T == tref.LIST && fd.T.Elem.T == tref.STRUCT:
+			var es []string
+			for _, e := range f.V.L {
+				es = append(es, c16Doc(cs, e, fd.T.Elem, nulls, unknown, depth+1))
+			}
+			val = "[" + strings.Join(es, ",") + "]"
+		case f.V.T == tref.MAP && fd.T.Elem.T == tref.STRUCT:
+			var es []string
+			for i, e := range f.V.L {
+				es = append(es, fmt.Sprintf("%q:%s", string(f.V.K[i].S), c16Doc(cs, e, fd.T.Elem, nulls, unknown, depth+1)))
+			}
+			val = "{" + strings.Join(es, ",") + "}"
+		default:
 			val = RenderJSON(cs.R, f.V, fd.T, JSpell{}, JOpts{})
 		}
 		parts = append(parts, fmt.Sprintf("%q:%s", fd.Name, val))
@@ -182,6 +212,18 @@ func c16Value(cs *h.Case, t *gen.Type, depth int) *tref.Val {
 		}
 		if fd.T.T == tref.STRUCT {
 			v.Fs = append(v.Fs, tref.Field{ID: fd.ID, V: c16Value(cs, fd.T, depth+1)})
+		} else if (fd.T.T == tref.LIST || fd.T.T == tref.MAP) && fd.T.Elem.T == tref.STRUCT {
+			x := &tref.Val{T: fd.T.T, ET: tref.STRUCT}
+			if fd.T.T == tref.MAP {
+				x.KT = tref.STRING
+			}
+			for k := cs.R.Intn(3); k > 0; k-- {
+				if fd.T.T == tref.MAP {
+					x.K = append(x.K, tref.Str(fmt.Sprintf("k%d", k)))
+				}
+				x.L = append(x.L, c16Value(cs, fd.T.Elem, depth+1))
+			}
+			v.Fs = append(v.Fs, tref.Field{ID: fd.ID, V: x})
 		} else {
 			x := gen.GenVal(cs.R, fd.T, gen.ValCfg{MaxElems: 2, MaxStr: 12, PlainStr: true}, 2)
 			if x.T == tref.DOUBLE && x.F == 0 {
@@ -549,11 +591,21 @@ func c16ExpectMarshalTo(v *tref.Val, t *gen.Type, g *generic.Options, o c16Opts)
 		}
 		present[f.ID] = true
 		ev := f.V
-		if f.V.T == tref.STRUCT {
+		switch {
+		case f.V.T == tref.STRUCT:
 			var cls string
 			ev, cls = c16ExpectMarshalTo(f.V, fd.T, g, o)
 			if cls != "" {
 				return nil, cls
+			}
+		case (f.V.T == tref.LIST || f.V.T == tref.MAP) && fd.T.Elem.T == tref.STRUCT:
+			ev = &tref.Val{T: f.V.T, ET: f.V.ET, KT: f.V.KT, K: f.V.K}
+			for _, e := range f.V.L {
+				x, cls := c16ExpectMarshalTo(e, fd.T.Elem, g, o)
+				if cls != "" {
+					return nil, cls
+				}
+				ev.L = append(ev.L, x)
 			}
 		}
 		out.Fs = append(out.Fs, tref.Field{ID: f.ID, V: ev})
@@ -588,12 +640,27 @@ func c16MarshalToOK(dec, v *tref.Val, t *gen.Type, g *generic.Options, o c16Opts
 		}
 		seen[df.ID] = true
 		if pv := v.FieldByID(df.ID); pv != nil {
-			if pv.T == tref.STRUCT {
+			switch {
+			case pv.T == tref.STRUCT:
 				if !c16MarshalToOK(df.V, pv, fd.T, g, o) {
 					return false
 				}
-			} else if !tref.Equal(df.V, pv) {
-				return false
+			case (pv.T == tref.LIST || pv.T == tref.MAP) && fd.T.Elem.T == tref.STRUCT:
+				if df.V.T != pv.T || len(df.V.L) != len(pv.L) {
+					return false
+				}
+				for i := range pv.L {
+					if pv.T == tref.MAP && !tref.Equal(df.V.K[i], pv.K[i]) {
+						return false
+					}
+					if !c16MarshalToOK(df.V.L[i], pv.L[i], fd.T.Elem, g, o) {
+						return false
+					}
+				}
+			default:
+				if !tref.Equal(df.V, pv) {
+					return false
+				}
 			}
 			continue
 		}
